@@ -418,6 +418,12 @@ func (vc *VC) callByContract(fr *Frame, n *Node, callee *ssa.Function, fc *FuncC
 			continue
 		}
 		j++
+		if hasTag(c.Tags, "INV") {
+			// object invariant: assumed at the entry of the methods, established by the constructors and preserved by
+			// every method (their own obligations), representation confined to the type's methods - not a caller duty
+			vc.used["object invariant (assumed at method entry, not asserted at call sites) of "+relKey(callee)+": "+truncate(c.Text, 120)] = true
+			continue
+		}
 		f, err := sc.formula(c.E)
 		if err != nil {
 			vc.specError(c, err)
@@ -450,6 +456,16 @@ func (vc *VC) callByContract(fr *Frame, n *Node, callee *ssa.Function, fc *FuncC
 		}
 	}
 	if explicit {
+		// witness ghosts are not part of any frame: whatever the callee (transitively) does to them is unknown here
+		var wn []string
+		cms := vc.p.autoMods[callee]
+		for k := range vc.svars {
+			if vc.witnessMap(k) && (cms == nil || cms.Top || cms.Maps[k]) {
+				wn = append(wn, k)
+			}
+		}
+		sort.Strings(wn)
+		vc.havocMaps(n, wn)
 	} else {
 		ms := vc.p.autoMods[callee]
 		if ms == nil || ms.Top {
